@@ -455,6 +455,56 @@ class DecimalShim:
         return getattr(decimal, k)
 
 
+class MathShim:
+    """stands for the `math` module inside the module under test: isfinite / isnan / isinf on symbolic numbers"""
+    def _fp(self, v):
+        if isinstance(v, SymFloat):
+            return v.e
+        return None
+
+    def isfinite(self, v):
+        if isinstance(v, SymFloat):
+            return bool(ENGINE.pick(z3.And(z3.Not(z3.fpIsNaN(v.e)), z3.Not(z3.fpIsInf(v.e)))))
+        if isinstance(v, SymInt):
+            # CPython converts the int to a C double: OverflowError from 2**1024 on
+            if bool(ENGINE.pick(z3.Or(v.e >= 2 ** 1024, v.e <= -(2 ** 1024)))):
+                raise OverflowError('int too large to convert to float')
+            return True
+        import math
+        return math.isfinite(v)
+
+    def isnan(self, v):
+        if isinstance(v, SymFloat):
+            return bool(ENGINE.pick(z3.fpIsNaN(v.e)))
+        if isinstance(v, SymInt):
+            if bool(ENGINE.pick(z3.Or(v.e >= 2 ** 1024, v.e <= -(2 ** 1024)))):
+                raise OverflowError('int too large to convert to float')
+            return False
+        import math
+        return math.isnan(v)
+
+    def isinf(self, v):
+        if isinstance(v, SymFloat):
+            return bool(ENGINE.pick(z3.fpIsInf(v.e)))
+        if isinstance(v, SymInt):
+            if bool(ENGINE.pick(z3.Or(v.e >= 2 ** 1024, v.e <= -(2 ** 1024)))):
+                raise OverflowError('int too large to convert to float')
+            return False
+        import math
+        return math.isinf(v)
+
+    def __getattr__(self, k):
+        import math
+        f = getattr(math, k)
+        if callable(f):
+            def guarded(*a, **kw):
+                if any(isinstance(x, (SymInt, SymFloat)) for x in a):
+                    raise Leak('math.%s on a symbolic number' % k)
+                return f(*a, **kw)
+            return guarded
+        return f
+
+
 class SymFloat(_SymNum, float):
     def __new__(cls, e):
         o = float.__new__(cls, 1.2345678910111213e+77)
